@@ -22,7 +22,8 @@ class CHECK(Check):
             "Field objects per call (as Register.read does), or reads only: the written line as is, with "
             "random blank padding around tokens, truncated to fewer tokens (short), extended with surplus tokens (long), "
             "and lines of garbage tokens; after every read all values are compared. non-trivial = the sequence contains "
-            "a short line after a longer one, or padding; distinct = hash")
+            "a short line after a longer one, or padding; distinct = hash"
+            " Later additions: three ways of driving the line (one Line, a new Line over the same Field objects per call, reads only).")
 
     def gen(self, tier, rng):
         n = 4000 if tier == "quick" else 100000
